@@ -233,6 +233,17 @@ def one_case(ctx, prog, vec=None, label="gen"):
             if d and not arith_domain(impl["inst_path"], mp):
                 ctx.disagree("C01.inst_path", case, {"diff_at": d[0], "impl": d[1]}, {"model": d[2]})
 
+    # ---- by-path route: the same values supplied by path give the same instance (oracle)
+    if "inst_path" in impl and "err" not in impl["inst_vec"]:
+        if "err" in impl["inst_path"]:
+            if not impl["inst_path"]["err"].split(":")[0] in ("ZeroDivisionError", "OverflowError", "ValueError"):
+                ctx.fail("C01-path-route", "instance_from_path_arguments raised for the model's own advertised paths", case, impl["inst_path"]["err"])
+        else:
+            d = X.inst_diff(impl["inst_vec"], impl["inst_path"], 0)
+            if d:
+                ctx.fail("C01-path-route", "values supplied by path give a different instance than the same values supplied as a vector",
+                         case | {"path_args": [[list(map(str, p)), x] for p, x in path_args]}, {"diff_at": d[0], "vector": d[1], "by_path": d[2]})
+
     # ---- unit route: same order as the physical route
     try:
         units = [rng.uniform(0.05, 0.95) for _ in range(len(v))]
